@@ -21,6 +21,9 @@ type RangeLoop struct {
 	// read with the matching index accessor, see IsElem.
 	Coll      bool
 	CollField string
+	// FixedTrips: the number of iterations is fixed when the loop is entered
+	// (a range loop, or a counted loop whose length is taken before the loop)
+	FixedTrips bool
 }
 
 // accessorBody returns the body-carrying function of f (the generic origin
@@ -121,7 +124,7 @@ func (l *RangeLoop) IsElem(v ssa.Value) bool {
 		return false
 	}
 	ia, ok := ld.X.(*ssa.IndexAddr)
-	return ok && ia.X == l.Over && ia.Index == l.Key
+	return ok && (ia.X == l.Over || SameValue(ia.X, l.Over)) && ia.Index == l.Key
 }
 
 // RangeLoops finds the range loops of fn.
@@ -195,7 +198,7 @@ func RangeLoops(fn *ssa.Function) []*RangeLoop {
 				if !okPhi {
 					continue
 				}
-				l := &RangeLoop{Over: ln.Call.Args[0], Header: b, Body: b.Succs[0], Done: b.Succs[1], Key: add}
+				l := &RangeLoop{Over: ln.Call.Args[0], Header: b, Body: b.Succs[0], Done: b.Succs[1], Key: add, FixedTrips: true}
 				out = append(out, l)
 			}
 		}
@@ -351,5 +354,18 @@ func countedLoop(b *ssa.BasicBlock, cond *ssa.BinOp) *RangeLoop {
 	if entries == 0 || steps == 0 {
 		return nil
 	}
-	return &RangeLoop{Over: ln.Call.Args[0], Header: b, Body: b.Succs[0], Done: b.Succs[1], Key: ph, Coll: coll, CollField: collField}
+	return &RangeLoop{Over: ln.Call.Args[0], Header: b, Body: b.Succs[0], Done: b.Succs[1], Key: ph, Coll: coll, CollField: collField, FixedTrips: ln.Block() != b}
+}
+
+// GetterOf: f is `func (r T) X() E { return r.f }`; returns the field's name.
+func GetterOf(f *ssa.Function) (string, bool) {
+	f = accessorBody(f)
+	if f == nil || len(f.Params) != 1 {
+		return "", false
+	}
+	ret, ok := f.Blocks[0].Instrs[len(f.Blocks[0].Instrs)-1].(*ssa.Return)
+	if !ok || len(ret.Results) != 1 {
+		return "", false
+	}
+	return accessorField(f, ret.Results[0])
 }
